@@ -30,6 +30,7 @@ import (
 	"github.com/DDP-Projekt/Kompilierer/src/ddperror"
 	"github.com/DDP-Projekt/Kompilierer/src/ddppath"
 	"github.com/DDP-Projekt/Kompilierer/src/parser"
+	"github.com/DDP-Projekt/Kompilierer/src/token"
 )
 
 var (
@@ -474,6 +475,46 @@ func checkC07(call *fwproto.Call, mod *ast.Module, err error, diags []ddperror.E
 		if bad != "" {
 			add("C07.I3", sig("range-outside-text"), fmt.Sprintf("diagnostic (%d) %q in %s range %v: %s", fd.Code, fd.Msg, fd.File, fd.Range, bad))
 			continue
+		}
+		// the diagnostics wrapped inside (errors of a generic instantiation) are part of what is delivered: they name
+		// a file and a range as well, and if nothing but warnings is wrapped the failure is caused by warnings alone
+		if len(d.WrappedGenericErrors) > 0 {
+			var walk func(ws []ddperror.Error, depth int) (hasErr bool)
+			walk = func(ws []ddperror.Error, depth int) bool {
+				hasErr := false
+				for _, w := range ws {
+					if w.Level == ddperror.LEVEL_ERROR {
+						hasErr = true
+					}
+					wl, ok := texts[w.File]
+					if !ok {
+						if b, rerr := os.ReadFile(w.File); rerr == nil {
+							wl = strings.Split(string(b), "\n")
+						}
+						texts[w.File] = wl
+					}
+					switch {
+					case w.File == "" || wl == nil:
+						add("C07.I3", fmt.Sprintf("wrapped-file-not-served|%d|%s", int(w.Code), fd.Fn), fmt.Sprintf("diagnostic (%d) wrapped in (%d) names the file %q which the simulated disk does not serve", int(w.Code), fd.Code, norm(w.File, runDir)))
+					case w.Range.End.IsBefore(w.Range.Start):
+						add("C07.I3", fmt.Sprintf("wrapped-start-after-end|%d|%s", int(w.Code), fd.Fn), fmt.Sprintf("diagnostic (%d) %q wrapped in (%d): range %v has its start after its end", int(w.Code), w.Msg, fd.Code, w.Range))
+					default:
+						for _, pos := range []token.Position{w.Range.Start, w.Range.End} {
+							if pos.Line < 1 || int(pos.Line) > len(wl) || pos.Column < 1 || int(pos.Column) > utf8.RuneCountInString(wl[pos.Line-1])+1 {
+								add("C07.I3", fmt.Sprintf("wrapped-range-outside-text|%d|%s", int(w.Code), fd.Fn), fmt.Sprintf("diagnostic (%d) %q wrapped in (%d) in %s: position %v lies outside the text", int(w.Code), w.Msg, fd.Code, norm(w.File, runDir), pos))
+								break
+							}
+						}
+					}
+					if depth < 8 && walk(w.WrappedGenericErrors, depth+1) {
+						hasErr = true
+					}
+				}
+				return hasErr
+			}
+			if !walk(d.WrappedGenericErrors, 0) && d.Level == ddperror.LEVEL_ERROR {
+				add("C07.I2", fmt.Sprintf("error-from-warnings-only|%d|%s", fd.Code, fd.Fn), fmt.Sprintf("error-level diagnostic (%d) %q wraps nothing but warnings: warnings alone made the compilation fail", fd.Code, firstLine(fd.Msg)))
+			}
 		}
 		// operational form: the real renderer must be able to print it
 		func() {
